@@ -5,7 +5,7 @@ CONSTANTS
   Places = {"string-in-object", "string-bare", "string-in-array", "string-nested", "stream", "metadata-stream", "encrypt-dict-indirect", "encrypt-dict-direct", "string-in-objstm", "xref-stream"}
   LenClasses = {"empty", "short", "block", "long"}
   IdClasses = {"low", "gen", "high"}
-  DictForms = {"plain", "cf-length-bits", "cf-no-length", "no-length"}
+  DictForms = {"plain", "cf-length-bits", "cf-no-length", "no-length", "uo-padded", "strf-identity"}
   Roots = {"object", "objstm"}
   Dev = {"encrypt_dict_decrypted"}
 INIT Init
